@@ -1,6 +1,6 @@
 /-
   The round-robin steps of the three population optimizers regenerated from their source files (GFO.Gen.PopIt,
-  harness/pypop.py) are EQUAL to `ptIterate`, `psoIterate`, `spiralIterate` and `ptInitPos` of GFO.Model.Population - the
+  harness/pypop.py) are EQUAL to `ptIterate`, `psoIterate`, `spiralIterate` and `ptInitPos`, `ptEvaluate`, `psoEvaluate`, `spiralEvaluate` of GFO.Model.Population - the
   definitions the whole-run theorems of GFO.PopRuns (C01, C02, C19 for PT / PSO / Spiral) are about.  A change of the member
   selection, of the decorator stack of a member move, of the outer constraint test, of the fallback or of what the member
   records afterwards (e.g. dropping `self.p_current.pos_new = pos_new`, the C19 half of fix d993248) changes the generated
@@ -17,12 +17,20 @@ theorem pt_init_pos_eq (cfg : PTCfg) (s : PopSt) : PT_init_pos cfg s = ptInitPos
 theorem pso_init_pos_eq (cfg : LocalCfg) (s : PopSt) : PSO_init_pos cfg s = ptInitPos s := rfl
 theorem spiral_init_pos_eq (cfg : LocalCfg) (s : PopSt) : Spiral_init_pos cfg s = ptInitPos s := rfl
 
+theorem pt_evaluate_eq (cfg : PTCfg) (s : PopSt) (score : F) : PT_evaluate cfg s score = ptEvaluate cfg s score := by
+  unfold PT_evaluate ptEvaluate ptSwapTape; rfl
+theorem pso_evaluate_eq (cfg : LocalCfg) (s : PopSt) (score : F) : PSO_evaluate cfg s score = psoEvaluate cfg s score := rfl
+theorem spiral_evaluate_eq (cfg : LocalCfg) (s : PopSt) (score : F) : Spiral_evaluate cfg s score = spiralEvaluate s score := rfl
+
 /-- the three backends run the generated steps -/
 theorem pt_backend_steps (cfg : PTCfg) :
-    (ptBackend cfg).iterate = PT_iterate cfg ∧ (ptBackend cfg).initPos = PT_init_pos cfg := ⟨rfl, rfl⟩
+    (ptBackend cfg).iterate = PT_iterate cfg ∧ (ptBackend cfg).initPos = PT_init_pos cfg ∧ (ptBackend cfg).evaluate = PT_evaluate cfg :=
+  ⟨rfl, rfl, by funext s score; exact (pt_evaluate_eq cfg s score).symm⟩
 theorem pso_backend_steps (cfg : LocalCfg) :
-    (psoBackend cfg).iterate = PSO_iterate cfg ∧ (psoBackend cfg).initPos = PSO_init_pos cfg := ⟨rfl, rfl⟩
+    (psoBackend cfg).iterate = PSO_iterate cfg ∧ (psoBackend cfg).initPos = PSO_init_pos cfg ∧ (psoBackend cfg).evaluate = PSO_evaluate cfg :=
+  ⟨rfl, rfl, rfl⟩
 theorem spiral_backend_steps (cfg : LocalCfg) :
-    (spiralBackend cfg).iterate = Spiral_iterate cfg ∧ (spiralBackend cfg).initPos = Spiral_init_pos cfg := ⟨rfl, rfl⟩
+    (spiralBackend cfg).iterate = Spiral_iterate cfg ∧ (spiralBackend cfg).initPos = Spiral_init_pos cfg ∧
+      (spiralBackend cfg).evaluate = Spiral_evaluate cfg := ⟨rfl, rfl, rfl⟩
 
 end GFO.Gen.PopIt
